@@ -244,3 +244,44 @@ func harnessC06CancelledMidRun() {
 	mu.Unlock()
 	vCover("waited")
 }
+
+//verif:entry property=C06 tier=both bounds="two goroutines waiting at once (Wait+Wait, or Wait+Shutdown with a live context) for one async invocation that yields mid-way, a third call to Wait afterwards; every interleaving within the preemption bound; every waiter returns, and only after the invocation has finished" cover="both-returned" preempt_quick=2 preempt_thorough=3 race=on
+func harnessC06TwoWaiters() {
+	bus := New()
+	var mu sync.Mutex
+	finished := 0
+	Subscribe(bus, func(e evA) {
+		vYield()
+		mu.Lock()
+		finished++
+		mu.Unlock()
+	}, Async())
+	Publish(bus, evA{N: 1})
+	second := vBool()
+	var wg sync.WaitGroup
+	wg.Add(2)
+	seen := [2]int{}
+	go func() {
+		defer wg.Done()
+		bus.Wait()
+		mu.Lock()
+		seen[0] = finished
+		mu.Unlock()
+	}()
+	go func() {
+		defer wg.Done()
+		if second {
+			vAssert(bus.Shutdown(context.Background()) == nil, "shutdown-nil-only-after-all-async-work-finished")
+		} else {
+			bus.Wait()
+		}
+		mu.Lock()
+		seen[1] = finished
+		mu.Unlock()
+	}()
+	wg.Wait()
+	vAssert(seen[0] == 1 && seen[1] == 1, "wait-returns-only-after-all-async-work-finished")
+	bus.Wait()
+	vJoinAll()
+	vCover("both-returned")
+}
